@@ -1,9 +1,13 @@
 /- C17 — Unicode escapes decode correctly for every code point; escaping is the inverse.
-   Property theorems only; helper lemmas live in AJ/Lemmas. -/
+   Property theorems (facts about single functions first, then their composition through the string parser
+   `parseQuoted`, `parseVariant`, `parseMembers`, `run`); helper lemmas live in AJ/Lemmas/{Bits,Latch,Quoted}.lean.
+   The `_gen` / `pq_u_*` theorems are the generalised forms used by the inductions. -/
 import AJ.Model.JD
 import AJ.Model.JSer
 import AJ.Spec.Unicode
 import AJ.Lemmas.Bits
+import AJ.Lemmas.Latch
+import AJ.Lemmas.Quoted
 namespace C17
 open JD
 
@@ -84,7 +88,448 @@ theorem escape_minimal (c : UInt8) : JSer.writeChar c = [c] ↔ c ∉ specials :
     rw [hc] at this
     exact of_decide_eq_true this
 
+/-! ## Composition through the string parser -/
+
+/-- generalised accumulator version of `escape_inverse` -/
+theorem escape_inverse_gen {cfg : Cfg} (hcfg : cfg.decodeUnicode = true) (s : List UInt8) :
+    ∀ (fuel : Nat) (acc : List UInt8) (hi : Nat) (q : St) (rest : List UInt8) (p : Nat) (f : Bool),
+      s.length < fuel → acc.length + s.length ≤ cfg.maxStrLen →
+      At q (s.flatMap JSer.writeChar ++ 0x22 :: rest) p f →
+      ∃ q', At q' rest (p + (s.flatMap JSer.writeChar).length + 1) f ∧
+        parseQuoted cfg 0x22 fuel acc hi q = (.ok, acc.reverse ++ s, q') := by
+  induction s with
+  | nil =>
+    intro fuel acc hi q rest p f hf hl h
+    obtain ⟨n, rfl⟩ : ∃ n, fuel = n + 1 := ⟨fuel - 1, by simp at hf; omega⟩
+    have h' : At q (0x22 :: rest) p f := by simpa using h
+    obtain ⟨q', hq', he⟩ := pq_close (cfg := cfg) (fuel := n) (acc := acc) (hi := hi) h' (by simpa using hl)
+    exact ⟨q', by simpa using hq', by simpa using he⟩
+  | cons c cs ih =>
+    intro fuel acc hi q rest p f hf hl h
+    obtain ⟨n, rfl⟩ : ∃ n, fuel = n + 1 := ⟨fuel - 1, by simp at hf; omega⟩
+    have h' : At q (JSer.writeChar c ++ (cs.flatMap JSer.writeChar ++ 0x22 :: rest)) p f := by
+      simpa [List.flatMap_cons, List.append_assoc] using h
+    obtain ⟨q1, hq1, he1⟩ := pq_writeChar hcfg c n acc hi q _ p f h'
+    obtain ⟨q', hq', he'⟩ := ih n (c :: acc) hi q1 rest _ f (by simp at hf; omega)
+      (by simp at hl ⊢; omega) hq1
+    refine ⟨q', ?_, ?_⟩
+    · have : p + (JSer.writeChar c).length + (cs.flatMap JSer.writeChar).length + 1 =
+          p + ((c :: cs).flatMap JSer.writeChar).length + 1 := by
+        simp only [List.flatMap_cons, List.length_append]; omega
+      rw [← this]; exact hq'
+    · rw [he1, he']; simp
+
+/-- **Escaping is inverted by the string parser.** Whatever `writeString` emits for the body of a string
+    (any bytes at all, hence every byte and every pair of bytes), followed by the closing quote, is read back
+    by `parseQuotedString` as the identical bytes; the reader is left just after the closing quote.
+    One unit of fuel per source byte plus one for the quote is enough. -/
+theorem escape_inverse (s : List UInt8) (cfg : Cfg) (q : St) (rest : List UInt8) (fuel hi : Nat)
+    (hcfg : cfg.decodeUnicode = true) (hlen : s.length ≤ cfg.maxStrLen)
+    (hq1 : q.l.loaded = false) (hq2 : q.l.unread = s.flatMap JSer.writeChar ++ 0x22 :: rest)
+    (hfuel : s.length < fuel) :
+    ∃ q', parseQuoted cfg 0x22 fuel [] hi q = (.ok, s, q') ∧ q'.l.loaded = false ∧ q'.l.unread = rest ∧
+      q'.l.pos = q.l.pos + (s.flatMap JSer.writeChar).length + 1 ∧ q'.found = q.found := by
+  obtain ⟨q', hq', he⟩ := escape_inverse_gen hcfg s fuel [] hi q rest q.l.pos q.found hfuel (by simpa using hlen)
+    ⟨hq1, hq2, rfl, rfl⟩
+  exact ⟨q', by simpa using he, hq'.1, hq'.2.1, hq'.2.2.1, hq'.2.2.2⟩
+
+/-- the same with the fuel bound stated on the escaped text -/
+theorem escape_inverse' (s : List UInt8) (cfg : Cfg) (q : St) (rest : List UInt8) (fuel : Nat)
+    (hcfg : cfg.decodeUnicode = true) (hlen : s.length ≤ cfg.maxStrLen)
+    (hq1 : q.l.loaded = false) (hq2 : q.l.unread = s.flatMap JSer.writeChar ++ 0x22 :: rest)
+    (hfuel : (s.flatMap JSer.writeChar).length + 1 < fuel) :
+    ∃ q', parseQuoted cfg 0x22 fuel [] 0 q = (.ok, s, q') ∧ q'.l.loaded = false ∧ q'.l.unread = rest := by
+  have := length_le_escaped s
+  obtain ⟨q', h1, h2, h3, _⟩ := escape_inverse s cfg q rest fuel 0 hcfg hlen hq1 hq2 (by omega)
+  exact ⟨q', h1, h2, h3⟩
+
+/-- **Round trip of a top-level string**: for every byte string `s` (within the length limit of the string
+    buffer), `deserializeJson(serializeJson(s))` succeeds, yields exactly `s`, and consumes the whole text. -/
+theorem roundtrip_string (cfg : Cfg) (L : Nat) (s : List UInt8)
+    (hcfg : cfg.decodeUnicode = true) (hlen : s.length ≤ cfg.maxStrLen) :
+    JD.run cfg L (JSer.writeString s) = (.ok, .str s, (JSer.writeString s).length) := by
+  have hle := length_le_escaped s
+  have hlenW : (JSer.writeString s).length = (s.flatMap JSer.writeChar).length + 2 := by
+    simp [JSer.writeString]
+  have hrun : JD.run cfg L (JSer.writeString s) =
+      (match parseVariant cfg ((2 * (JSer.writeString s).length + 3) + 1) L { l := { unread := JSer.writeString s } } with
+       | (.ok, v, s) =>
+         if s.l.cur != 0 && !isWs s.l.cur && isNumberVal v then (.invalid, v, s.l.pos) else (.ok, v, s.l.pos)
+       | (e, v, s) => (e, v, s.l.pos)) := rfl
+  rw [hrun, parseVariant_quote (rest := s.flatMap JSer.writeChar ++ [0x22]) rfl rfl]
+  obtain ⟨q', he, _, _, hp, _⟩ := escape_inverse s cfg
+    { adv { l := { unread := JSer.writeString s } } 0x22 (s.flatMap JSer.writeChar ++ [0x22]) with found := true }
+    [] (2 * (JSer.writeString s).length + 3 + 1) 0 hcfg hlen rfl rfl (by omega)
+  have hpos : q'.l.pos = (JSer.writeString s).length := by
+    rw [hp, hlenW]
+    show (0 + 1) + (List.flatMap JSer.writeChar s).length + 1 = (List.flatMap JSer.writeChar s).length + 2
+    omega
+  rw [he]
+  simp only [isNumberVal, Bool.and_false, Bool.false_eq_true, ↓reduceIte, hpos]
+
+/-- every byte value placed in a string survives `serializeJson` then `deserializeJson` -/
+theorem roundtrip_byte (cfg : Cfg) (L : Nat) (c : UInt8) (hcfg : cfg.decodeUnicode = true) (hm : 1 ≤ cfg.maxStrLen) :
+    JD.run cfg L (JSer.writeString [c]) = (.ok, .str [c], (JSer.writeString [c]).length) :=
+  roundtrip_string cfg L [c] hcfg (by simpa using hm)
+
+/-- every pair of byte values placed in a string survives `serializeJson` then `deserializeJson` -/
+theorem roundtrip_byte_pair (cfg : Cfg) (L : Nat) (a b : UInt8) (hcfg : cfg.decodeUnicode = true)
+    (hm : 2 ≤ cfg.maxStrLen) :
+    JD.run cfg L (JSer.writeString [a, b]) = (.ok, .str [a, b], (JSer.writeString [a, b]).length) :=
+  roundtrip_string cfg L [a, b] hcfg (by simpa using hm)
+
+/-! ## A key and a string value inside an object -/
+
+/-- **Round trip of a key and of a string value inside an object**: the compact serialization of
+    `{k: s}` deserializes to exactly that object, for all byte strings `k` and `s`. -/
+theorem roundtrip_member (cfg : Cfg) (L : Nat) (k s : List UInt8) (hcfg : cfg.decodeUnicode = true)
+    (hk : k.length ≤ cfg.maxStrLen) (hs : s.length ≤ cfg.maxStrLen) :
+    JD.run cfg (L + 1) (JSer.compact cfg (.obj [(k, .str s)])) =
+      (.ok, .obj [(k, .str s)], (JSer.compact cfg (.obj [(k, .str s)])).length) := by
+  have hin : JSer.compact cfg (.obj [(k, .str s)]) =
+      0x7B :: 0x22 :: (k.flatMap JSer.writeChar ++ 0x22 :: 0x3A :: 0x22 :: (s.flatMap JSer.writeChar ++ 0x22 :: [0x7D])) := by
+    simp [JSer.compact, JSer.compactMembers, JSer.writeString]
+  rw [hin]
+  generalize hI : (0x7B :: 0x22 :: (k.flatMap JSer.writeChar ++ 0x22 :: 0x3A :: 0x22 ::
+      (s.flatMap JSer.writeChar ++ 0x22 :: [0x7D])) : List UInt8) = I
+  have hlen : I.length = (k.flatMap JSer.writeChar).length + (s.flatMap JSer.writeChar).length + 7 := by
+    rw [← hI]; simp only [List.length_cons, List.length_append, List.length_nil]; omega
+  have hkl := length_le_escaped k
+  have hsl := length_le_escaped s
+  have hrun : JD.run cfg (L + 1) I =
+      (match parseVariant cfg (2 * I.length + 1 + 1 + 1 + 1) (L + 1) { l := { unread := I } } with
+       | (.ok, v, s) =>
+         if s.l.cur != 0 && !isWs s.l.cur && isNumberVal v then (.invalid, v, s.l.pos) else (.ok, v, s.l.pos)
+       | (e, v, s) => (e, v, s.l.pos)) := rfl
+  rw [hrun]
+  have hopen := parseVariant_obj_open (cfg := cfg) (fuel := 2 * I.length + 1 + 1 + 1) (limit := L)
+    (s := { l := { unread := I } }) (c := 0x22)
+    (rest := k.flatMap JSer.writeChar ++ 0x22 :: 0x3A :: 0x22 :: (s.flatMap JSer.writeChar ++ 0x22 :: [0x7D]))
+    rfl (by rw [← hI]) (by decide) (by decide) (by decide) (by decide)
+  rw [hopen]
+  -- the key
+  obtain ⟨q1, he1, h11, h12, hp1, _⟩ := escape_inverse k cfg
+    (setFound (adv (setFound (adv { l := { unread := I } } 0x7B
+      (0x22 :: (k.flatMap JSer.writeChar ++ 0x22 :: 0x3A :: 0x22 :: (s.flatMap JSer.writeChar ++ 0x22 :: [0x7D])))))
+      0x22 (k.flatMap JSer.writeChar ++ 0x22 :: 0x3A :: 0x22 :: (s.flatMap JSer.writeChar ++ 0x22 :: [0x7D]))))
+    (0x3A :: 0x22 :: (s.flatMap JSer.writeChar ++ 0x22 :: [0x7D])) (2 * I.length + 1 + 1 + 1) 0 hcfg hk rfl rfl (by omega)
+  -- the value
+  obtain ⟨q2, he2, h21, h22, hp2, _⟩ := escape_inverse s cfg
+    { adv (setFound (adv q1 0x3A (0x22 :: (s.flatMap JSer.writeChar ++ 0x22 :: [0x7D])))) 0x22
+        (s.flatMap JSer.writeChar ++ 0x22 :: [0x7D]) with found := true }
+    [0x7D] (2 * I.length + 1 + 1) 0 hcfg hs rfl rfl (by omega)
+  have hv : parseVariant cfg (2 * I.length + 1 + 1) L
+      (setFound (adv q1 0x3A (0x22 :: (s.flatMap JSer.writeChar ++ 0x22 :: [0x7D])))) = (.ok, .str s, q2) := by
+    rw [parseVariant_quote (rest := s.flatMap JSer.writeChar ++ 0x22 :: [0x7D]) rfl rfl, he2]
+  rw [parseMembers_single he1 h11 h12 hv h21 h22]
+  have hpos : (setFound (adv q2 0x7D [])).l.pos = I.length := by
+    rw [setFound_l, adv_pos, hp2]
+    show q1.l.pos + 1 + 1 + _ + 1 + 1 = _
+    rw [hp1]
+    show (0 + 1) + 1 + _ + 1 + 1 + 1 + _ + 1 + 1 = _
+    omega
+  simp only [isNumberVal, Bool.and_false, Bool.false_eq_true, ↓reduceIte, hpos, setMember]
+
+/-! ## `\uXXXX` at any position -/
+
+theorem decodeHex_le (c : UInt8) (v : Nat) (h : Spec.hexVal c = some v) : decodeHex c ≤ 0x0F := by
+  rw [decodeHex_hex c v h]; exact hexVal_le c v h
+
+/-- one `\uXXXX` of a non-surrogate code unit: one round of the loop, appends the UTF-8 encoding -/
+theorem pq_u_bmp {cfg : Cfg} {stop : UInt8} (hs : stop ≠ 0x5C) (hcfg : cfg.decodeUnicode = true)
+    {h1 h2 h3 h4 : UInt8} {d1 d2 d3 d4 : Nat}
+    (e1 : Spec.hexVal h1 = some d1) (e2 : Spec.hexVal h2 = some d2)
+    (e3 : Spec.hexVal h3 = some d3) (e4 : Spec.hexVal h4 = some d4)
+    (hns : Spec.isSurrogate (d1 * 4096 + d2 * 256 + d3 * 16 + d4) = false)
+    (fuel : Nat) (acc : List UInt8) (hi : Nat) (s : St) (rest : List UInt8) (p : Nat) (f : Bool)
+    (h : At s (0x5C :: 0x75 :: h1 :: h2 :: h3 :: h4 :: rest) p f) :
+    ∃ s', At s' rest (p + 6) f ∧
+      parseQuoted cfg stop (fuel + 1) acc hi s =
+        parseQuoted cfg stop fuel ((Spec.utf8 (d1 * 4096 + d2 * 256 + d3 * 16 + d4)).reverse ++ acc) hi s' := by
+  obtain ⟨s', hs', he⟩ := pq_u (cfg := cfg) (stop := stop) (fuel := fuel) (acc := acc) (hi := hi) h.1 h.2.1 hs hcfg
+    (decodeHex_le _ _ e1) (decodeHex_le _ _ e2) (decodeHex_le _ _ e3) (decodeHex_le _ _ e4)
+  rw [h.2.2.1, h.2.2.2] at hs'
+  refine ⟨s', hs', ?_⟩
+  rw [he, decodeHex_hex _ _ e1, decodeHex_hex _ _ e2, decodeHex_hex _ _ e3, decodeHex_hex _ _ e4]
+  have b1 := hexVal_le _ _ e1; have b2 := hexVal_le _ _ e2; have b3 := hexVal_le _ _ e3; have b4 := hexVal_le _ _ e4
+  generalize hcu : d1 * 4096 + d2 * 256 + d3 * 16 + d4 = cu at hns ⊢
+  have hlt : cu < 0x110000 := by omega
+  simp only [Spec.isSurrogate, Bool.and_eq_false_iff, decide_eq_false_iff_not] at hns
+  have c1 : (decide (0xD800 ≤ cu) && decide (cu < 0xDC00)) = false := by
+    simp only [Bool.and_eq_false_iff, decide_eq_false_iff_not]; omega
+  have c2 : (decide (0xDC00 ≤ cu) && decide (cu < 0xE000)) = false := by
+    simp only [Bool.and_eq_false_iff, decide_eq_false_iff_not]; omega
+  simp only [c1, c2, Bool.false_eq_true, ↓reduceIte, encodeCodepoint_eq_utf8 cu hlt]
+
+/-- a high surrogate escape immediately followed by a low surrogate escape: two rounds of the loop, appends the
+    UTF-8 encoding of the code point of the pair (whatever was pending before) -/
+theorem pq_u_pair {cfg : Cfg} {stop : UInt8} (hs : stop ≠ 0x5C) (hcfg : cfg.decodeUnicode = true)
+    {a1 a2 a3 a4 b1 b2 b3 b4 : UInt8} {x1 x2 x3 x4 y1 y2 y3 y4 hiu lou : Nat}
+    (ea1 : Spec.hexVal a1 = some x1) (ea2 : Spec.hexVal a2 = some x2)
+    (ea3 : Spec.hexVal a3 = some x3) (ea4 : Spec.hexVal a4 = some x4)
+    (eb1 : Spec.hexVal b1 = some y1) (eb2 : Spec.hexVal b2 = some y2)
+    (eb3 : Spec.hexVal b3 = some y3) (eb4 : Spec.hexVal b4 = some y4)
+    (hhiu : hiu = x1 * 4096 + x2 * 256 + x3 * 16 + x4) (hlou : lou = y1 * 4096 + y2 * 256 + y3 * 16 + y4)
+    (hhi : 0xD800 ≤ hiu ∧ hiu < 0xDC00) (hlo : 0xDC00 ≤ lou ∧ lou < 0xE000)
+    (fuel : Nat) (acc : List UInt8) (hi0 : Nat) (s : St) (rest : List UInt8) (p : Nat) (f : Bool)
+    (h : At s (0x5C :: 0x75 :: a1 :: a2 :: a3 :: a4 :: 0x5C :: 0x75 :: b1 :: b2 :: b3 :: b4 :: rest) p f) :
+    ∃ s', At s' rest (p + 12) f ∧
+      parseQuoted cfg stop (fuel + 2) acc hi0 s =
+        parseQuoted cfg stop fuel ((Spec.utf8 (Spec.pairValue hiu lou)).reverse ++ acc) (hiu % 1024) s' := by
+  obtain ⟨s1, hs1, he1⟩ := pq_u (cfg := cfg) (stop := stop) (fuel := fuel + 1) (acc := acc) (hi := hi0) h.1 h.2.1 hs hcfg
+    (decodeHex_le _ _ ea1) (decodeHex_le _ _ ea2) (decodeHex_le _ _ ea3) (decodeHex_le _ _ ea4)
+  rw [h.2.2.1, h.2.2.2] at hs1
+  rw [decodeHex_hex _ _ ea1, decodeHex_hex _ _ ea2, decodeHex_hex _ _ ea3, decodeHex_hex _ _ ea4, ← hhiu] at he1
+  have c1 : (decide (0xD800 ≤ hiu) && decide (hiu < 0xDC00)) = true := by
+    simp only [Bool.and_eq_true, decide_eq_true_eq]; exact hhi
+  simp only [c1, ↓reduceIte] at he1
+  obtain ⟨s2, hs2, he2⟩ := pq_u (cfg := cfg) (stop := stop) (fuel := fuel) (acc := acc) (hi := hiu % 1024)
+    hs1.1 hs1.2.1 hs hcfg
+    (decodeHex_le _ _ eb1) (decodeHex_le _ _ eb2) (decodeHex_le _ _ eb3) (decodeHex_le _ _ eb4)
+  rw [hs1.2.2.1, hs1.2.2.2] at hs2
+  rw [decodeHex_hex _ _ eb1, decodeHex_hex _ _ eb2, decodeHex_hex _ _ eb3, decodeHex_hex _ _ eb4, ← hlou] at he2
+  have c2 : (decide (0xD800 ≤ lou) && decide (lou < 0xDC00)) = false := by
+    simp only [Bool.and_eq_false_iff, decide_eq_false_iff_not]; omega
+  have c3 : (decide (0xDC00 ≤ lou) && decide (lou < 0xE000)) = true := by
+    simp only [Bool.and_eq_true, decide_eq_true_eq]; exact hlo
+  simp only [c2, c3, Bool.false_eq_true, ↓reduceIte] at he2
+  refine ⟨s2, by simpa [Nat.add_assoc] using hs2, ?_⟩
+  have hpv : Spec.pairValue hiu lou < 0x110000 := by unfold Spec.pairValue; omega
+  rw [show fuel + 2 = (fuel + 1) + 1 from rfl, he1, he2, surrogate_pair hiu lou hhi hlo,
+    encodeCodepoint_eq_utf8 _ hpv]
+
+/-- **A BMP escape decodes to UTF-8 at any position**: `pre \uXXXX post "` with plain bytes before and after,
+    hex digits in any case, for the string delimiter `stop` (`"` or `'`; strings and keys use the same routine). -/
+theorem bmp_decodes_anywhere (cfg : Cfg) (stop : UInt8) (hs : stop ≠ 0x5C) (hcfg : cfg.decodeUnicode = true)
+    (pre post rest : List UInt8) (hpre : ∀ c ∈ pre, Plain stop c) (hpost : ∀ c ∈ post, Plain stop c)
+    (h1 h2 h3 h4 : UInt8) (d1 d2 d3 d4 cu : Nat)
+    (e1 : Spec.hexVal h1 = some d1) (e2 : Spec.hexVal h2 = some d2)
+    (e3 : Spec.hexVal h3 = some d3) (e4 : Spec.hexVal h4 = some d4)
+    (hcu : cu = d1 * 4096 + d2 * 256 + d3 * 16 + d4) (hns : Spec.isSurrogate cu = false)
+    (hlen : (pre ++ Spec.utf8 cu ++ post).length ≤ cfg.maxStrLen)
+    (q : St) (hq1 : q.l.loaded = false)
+    (hq2 : q.l.unread = pre ++ [0x5C, 0x75, h1, h2, h3, h4] ++ post ++ [stop] ++ rest)
+    (fuel hi : Nat) (hfuel : pre.length + post.length + 2 ≤ fuel) :
+    ∃ q', parseQuoted cfg stop fuel [] hi q = (.ok, pre ++ Spec.utf8 cu ++ post, q') ∧
+      q'.l.loaded = false ∧ q'.l.unread = rest ∧ q'.l.pos = q.l.pos + (pre.length + 6 + post.length + 1) := by
+  subst hcu
+  obtain ⟨k, rfl⟩ : ∃ k, fuel = pre.length + ((post.length + (k + 1)) + 1) :=
+    ⟨fuel - (pre.length + post.length + 2), by omega⟩
+  have h0 : At q (pre ++ (0x5C :: 0x75 :: h1 :: h2 :: h3 :: h4 :: (post ++ stop :: rest))) q.l.pos q.found :=
+    ⟨hq1, by rw [hq2]; simp, rfl, rfl⟩
+  obtain ⟨s1, hs1, he1⟩ := parseQuoted_plain_prefix (cfg := cfg) pre hpre _ [] hi q _ _ _ h0
+  obtain ⟨s2, hs2, he2⟩ := pq_u_bmp (cfg := cfg) hs hcfg e1 e2 e3 e4 hns (post.length + (k + 1)) (pre.reverse ++ [])
+    hi s1 _ _ _ hs1
+  obtain ⟨s3, hs3, he3⟩ := pq_plain_then_close (cfg := cfg) post hpost k
+    ((Spec.utf8 (d1 * 4096 + d2 * 256 + d3 * 16 + d4)).reverse ++ (pre.reverse ++ [])) hi s2 rest _ _ hs2
+    (by simp at hlen ⊢; omega)
+  refine ⟨s3, ?_, hs3.1, hs3.2.1, ?_⟩
+  · rw [he1, he2, he3]; simp
+  · rw [hs3.2.2.1]; omega
+
+/-- **A surrogate pair decodes to the UTF-8 of its code point at any position**: a high-surrogate escape
+    immediately followed by a low-surrogate escape, hex digits in any case. -/
+theorem pair_decodes_anywhere (cfg : Cfg) (stop : UInt8) (hs : stop ≠ 0x5C) (hcfg : cfg.decodeUnicode = true)
+    (pre post rest : List UInt8) (hpre : ∀ c ∈ pre, Plain stop c) (hpost : ∀ c ∈ post, Plain stop c)
+    (a1 a2 a3 a4 b1 b2 b3 b4 : UInt8) (x1 x2 x3 x4 y1 y2 y3 y4 hiu lou : Nat)
+    (ea1 : Spec.hexVal a1 = some x1) (ea2 : Spec.hexVal a2 = some x2)
+    (ea3 : Spec.hexVal a3 = some x3) (ea4 : Spec.hexVal a4 = some x4)
+    (eb1 : Spec.hexVal b1 = some y1) (eb2 : Spec.hexVal b2 = some y2)
+    (eb3 : Spec.hexVal b3 = some y3) (eb4 : Spec.hexVal b4 = some y4)
+    (hhiu : hiu = x1 * 4096 + x2 * 256 + x3 * 16 + x4) (hlou : lou = y1 * 4096 + y2 * 256 + y3 * 16 + y4)
+    (hhi : 0xD800 ≤ hiu ∧ hiu < 0xDC00) (hlo : 0xDC00 ≤ lou ∧ lou < 0xE000)
+    (hlen : (pre ++ Spec.utf8 (Spec.pairValue hiu lou) ++ post).length ≤ cfg.maxStrLen)
+    (q : St) (hq1 : q.l.loaded = false)
+    (hq2 : q.l.unread = pre ++ [0x5C, 0x75, a1, a2, a3, a4, 0x5C, 0x75, b1, b2, b3, b4] ++ post ++ [stop] ++ rest)
+    (fuel hi : Nat) (hfuel : pre.length + post.length + 3 ≤ fuel) :
+    ∃ q', parseQuoted cfg stop fuel [] hi q = (.ok, pre ++ Spec.utf8 (Spec.pairValue hiu lou) ++ post, q') ∧
+      q'.l.loaded = false ∧ q'.l.unread = rest ∧ q'.l.pos = q.l.pos + (pre.length + 12 + post.length + 1) := by
+  obtain ⟨k, rfl⟩ : ∃ k, fuel = pre.length + ((post.length + (k + 1)) + 2) :=
+    ⟨fuel - (pre.length + post.length + 3), by omega⟩
+  have h0 : At q (pre ++ (0x5C :: 0x75 :: a1 :: a2 :: a3 :: a4 :: 0x5C :: 0x75 :: b1 :: b2 :: b3 :: b4 ::
+      (post ++ stop :: rest))) q.l.pos q.found :=
+    ⟨hq1, by rw [hq2]; simp, rfl, rfl⟩
+  obtain ⟨s1, hs1, he1⟩ := parseQuoted_plain_prefix (cfg := cfg) pre hpre _ [] hi q _ _ _ h0
+  obtain ⟨s2, hs2, he2⟩ := pq_u_pair (cfg := cfg) hs hcfg ea1 ea2 ea3 ea4 eb1 eb2 eb3 eb4 hhiu hlou hhi hlo
+    (post.length + (k + 1)) (pre.reverse ++ []) hi s1 _ _ _ hs1
+  obtain ⟨s3, hs3, he3⟩ := pq_plain_then_close (cfg := cfg) post hpost k
+    ((Spec.utf8 (Spec.pairValue hiu lou)).reverse ++ (pre.reverse ++ [])) _ s2 rest _ _ hs2
+    (by simp at hlen ⊢; omega)
+  refine ⟨s3, ?_, hs3.1, hs3.2.1, ?_⟩
+  · rw [he1, he2, he3]; simp
+  · rw [hs3.2.2.1]; omega
+
+
+/-! ## The string part of C01: the parser computes the value that the grammar assigns to a string body -/
+
+/-- **`parseQuotedString` agrees with the grammar.** If `t` is a well-formed string body denoting `v`
+    (`JD.Body`: plain bytes, the eight short escapes, `\uXXXX` of non-surrogates in any hex case, surrogate pairs,
+    in any order and at any position), then reading `t` followed by the closing delimiter yields exactly `v`,
+    appended to what was accumulated, and leaves the reader just after the delimiter — whatever high surrogate
+    was pending. -/
+theorem body_decodes_gen {cfg : Cfg} {stop : UInt8} (hs : stop ≠ 0x5C) (hcfg : cfg.decodeUnicode = true)
+    {t v : List UInt8} (hb : Body stop t v) :
+    ∀ (fuel : Nat) (acc : List UInt8) (hi : Nat) (q : St) (rest : List UInt8) (p : Nat) (f : Bool),
+      t.length < fuel → acc.length + v.length ≤ cfg.maxStrLen → At q (t ++ stop :: rest) p f →
+      ∃ q', At q' rest (p + t.length + 1) f ∧ parseQuoted cfg stop fuel acc hi q = (.ok, acc.reverse ++ v, q') := by
+  induction hb with
+  | nil =>
+    intro fuel acc hi q rest p f hf hl h
+    obtain ⟨n, rfl⟩ : ∃ n, fuel = n + 1 := ⟨fuel - 1, by simp at hf; omega⟩
+    have h' : At q (stop :: rest) p f := by simpa using h
+    obtain ⟨q', hq', he⟩ := pq_close (cfg := cfg) (fuel := n) (acc := acc) (hi := hi) h' (by simpa using hl)
+    exact ⟨q', by simpa using hq', by simpa using he⟩
+  | plain c t v h1 h2 h3 _ ih =>
+    intro fuel acc hi q rest p f hf hl h
+    obtain ⟨n, rfl⟩ : ∃ n, fuel = n + 1 := ⟨fuel - 1, by simp at hf; omega⟩
+    have h' : At q (c :: (t ++ stop :: rest)) p f := by simpa using h
+    obtain ⟨q', hq', he'⟩ := ih n (c :: acc) hi _ rest _ f (by simp at hf; omega) (by simp at hl ⊢; omega) h'.adv
+    refine ⟨q', ?_, ?_⟩
+    · have : p + 1 + t.length + 1 = p + (c :: t).length + 1 := by simp; omega
+      rw [← this]; exact hq'
+    · rw [pq_plain h'.1 h'.2.1 h2 (ne_zero_of_ge_space h1) h3, he']; simp
+  | esc l x t v hm _ ih =>
+    intro fuel acc hi q rest p f hf hl h
+    obtain ⟨n, rfl⟩ : ∃ n, fuel = n + 1 := ⟨fuel - 1, by simp at hf; omega⟩
+    obtain ⟨f1, f2, f3, f4⟩ := rfcEscapes_facts hm
+    have h' : At q (0x5C :: l :: (t ++ stop :: rest)) p f := by simpa using h
+    obtain ⟨q', hq', he'⟩ := ih n (x :: acc) hi _ rest _ f (by simp at hf; omega) (by simp at hl ⊢; omega) h'.adv.adv
+    refine ⟨q', ?_, ?_⟩
+    · have : p + 1 + 1 + t.length + 1 = p + (0x5C :: l :: t).length + 1 := by simp; omega
+      rw [← this]; exact hq'
+    · rw [pq_esc h'.1 h'.2.1 hs f1 f2 (by rw [f3]; exact f4), f3, he']; simp
+  | bmp h1 h2 h3 h4 d1 d2 d3 d4 t v e1 e2 e3 e4 hns _ ih =>
+    intro fuel acc hi q rest p f hf hl h
+    obtain ⟨n, rfl⟩ : ∃ n, fuel = n + 1 := ⟨fuel - 1, by simp at hf; omega⟩
+    have h' : At q (0x5C :: 0x75 :: h1 :: h2 :: h3 :: h4 :: (t ++ stop :: rest)) p f := by simpa using h
+    obtain ⟨q1, hq1, he1⟩ := pq_u_bmp (cfg := cfg) hs hcfg e1 e2 e3 e4 hns n acc hi q _ p f h'
+    obtain ⟨q', hq', he'⟩ := ih n ((Spec.utf8 (d1 * 4096 + d2 * 256 + d3 * 16 + d4)).reverse ++ acc) hi q1 rest _ f
+      (by simp at hf; omega) (by simp at hl ⊢; omega) hq1
+    refine ⟨q', ?_, ?_⟩
+    · have : p + 6 + t.length + 1 = p + (0x5C :: 0x75 :: h1 :: h2 :: h3 :: h4 :: t).length + 1 := by simp; omega
+      rw [← this]; exact hq'
+    · rw [he1, he']; simp
+  | pair a1 a2 a3 a4 b1 b2 b3 b4 x1 x2 x3 x4 y1 y2 y3 y4 hiu lou t v ea1 ea2 ea3 ea4 eb1 eb2 eb3 eb4
+      hhiu hlou hhi hlo _ ih =>
+    intro fuel acc hi q rest p f hf hl h
+    obtain ⟨n, rfl⟩ : ∃ n, fuel = n + 2 := ⟨fuel - 2, by simp at hf; omega⟩
+    have h' : At q (0x5C :: 0x75 :: a1 :: a2 :: a3 :: a4 :: 0x5C :: 0x75 :: b1 :: b2 :: b3 :: b4 ::
+        (t ++ stop :: rest)) p f := by simpa using h
+    obtain ⟨q1, hq1, he1⟩ := pq_u_pair (cfg := cfg) hs hcfg ea1 ea2 ea3 ea4 eb1 eb2 eb3 eb4 hhiu hlou hhi hlo
+      n acc hi q _ p f h'
+    obtain ⟨q', hq', he'⟩ := ih n ((Spec.utf8 (Spec.pairValue hiu lou)).reverse ++ acc) (hiu % 1024) q1 rest _ f
+      (by simp at hf; omega) (by simp at hl ⊢; omega) hq1
+    refine ⟨q', ?_, ?_⟩
+    · have : p + 12 + t.length + 1 =
+          p + (0x5C :: 0x75 :: a1 :: a2 :: a3 :: a4 :: 0x5C :: 0x75 :: b1 :: b2 :: b3 :: b4 :: t).length + 1 := by
+        simp; omega
+      rw [← this]; exact hq'
+    · rw [he1, he']; simp
+
+/-- `parseQuotedString` on a well-formed body, from the empty accumulator -/
+theorem body_decodes (cfg : Cfg) (stop : UInt8) (hs : stop ≠ 0x5C) (hcfg : cfg.decodeUnicode = true)
+    (t v : List UInt8) (hb : Body stop t v) (hlen : v.length ≤ cfg.maxStrLen)
+    (q : St) (rest : List UInt8) (hq1 : q.l.loaded = false) (hq2 : q.l.unread = t ++ stop :: rest)
+    (fuel hi : Nat) (hfuel : t.length < fuel) :
+    ∃ q', parseQuoted cfg stop fuel [] hi q = (.ok, v, q') ∧ q'.l.loaded = false ∧ q'.l.unread = rest ∧
+      q'.l.pos = q.l.pos + t.length + 1 ∧ q'.found = q.found := by
+  obtain ⟨q', hq', he⟩ := body_decodes_gen hs hcfg hb fuel [] hi q rest q.l.pos q.found hfuel (by simpa using hlen)
+    ⟨hq1, hq2, rfl, rfl⟩
+  exact ⟨q', by simpa using he, hq'.1, hq'.2.1, hq'.2.2.1, hq'.2.2.2⟩
+
+/-- **A valid JSON string document deserializes to the value it denotes** (string part of C01): the text
+    `"` body `"` where the body is well formed per RFC 8259 and denotes `v` gives `Ok`, the string `v`, and
+    the whole text is consumed. -/
+theorem string_document (cfg : Cfg) (L : Nat) (t v : List UInt8) (hcfg : cfg.decodeUnicode = true)
+    (hb : Body 0x22 t v) (hlen : v.length ≤ cfg.maxStrLen) :
+    JD.run cfg L (0x22 :: t ++ [0x22]) = (.ok, .str v, t.length + 2) := by
+  have hrun : JD.run cfg L (0x22 :: t ++ [0x22]) =
+      (match parseVariant cfg ((2 * (0x22 :: t ++ [0x22]).length + 3) + 1) L { l := { unread := 0x22 :: t ++ [0x22] } } with
+       | (.ok, v, s) =>
+         if s.l.cur != 0 && !isWs s.l.cur && isNumberVal v then (.invalid, v, s.l.pos) else (.ok, v, s.l.pos)
+       | (e, v, s) => (e, v, s.l.pos)) := rfl
+  rw [hrun, parseVariant_quote (rest := t ++ [0x22]) rfl rfl]
+  obtain ⟨q', he, _, _, hp, _⟩ := body_decodes cfg 0x22 (by decide) hcfg t v hb hlen
+    { adv { l := { unread := 0x22 :: t ++ [0x22] } } 0x22 (t ++ [0x22]) with found := true }
+    [] rfl rfl (2 * (0x22 :: t ++ [0x22]).length + 3 + 1) 0 (by simp; omega)
+  have hpos : q'.l.pos = t.length + 2 := by
+    rw [hp]
+    show (0 + 1) + t.length + 1 = t.length + 2
+    omega
+  rw [he]
+  simp only [isNumberVal, Bool.and_false, Bool.false_eq_true, ↓reduceIte, hpos]
+
 -- non-vacuity
 example : encodeCodepoint 0x1F600 = [0xF0, 0x9F, 0x98, 0x80] := by decide
 example : Spec.hexVal 0x66 = some 15 := by decide
+
+-- escape_inverse on  A " NUL LF 0xFF \  (six source bytes, 14 escaped bytes), followed by `",`
+example : ∃ q', parseQuoted {} 0x22 7 [] 0
+      { l := { unread := [0x41, 0x5C, 0x22, 0x5C, 0x75, 0x30, 0x30, 0x30, 0x30, 0x5C, 0x6E, 0xFF, 0x5C, 0x5C, 0x22, 0x2C] } }
+      = (.ok, [0x41, 0x22, 0x00, 0x0A, 0xFF, 0x5C], q') ∧ q'.l.loaded = false ∧ q'.l.unread = [0x2C] := by
+  obtain ⟨q', h1, h2, h3, _⟩ := escape_inverse [0x41, 0x22, 0x00, 0x0A, 0xFF, 0x5C] {}
+    { l := { unread := [0x41, 0x5C, 0x22, 0x5C, 0x75, 0x30, 0x30, 0x30, 0x30, 0x5C, 0x6E, 0xFF, 0x5C, 0x5C, 0x22, 0x2C] } }
+    [0x2C] 7 0 rfl (by decide) rfl (by decide +kernel) (by decide)
+  exact ⟨q', h1, h2, h3⟩
+
+-- the same text evaluated directly (independent of the theorem)
+example : (match parseQuoted {} 0x22 7 [] 0
+      { l := { unread := [0x41, 0x5C, 0x22, 0x5C, 0x75, 0x30, 0x30, 0x30, 0x30, 0x5C, 0x6E, 0xFF, 0x5C, 0x5C, 0x22, 0x2C] } } with
+    | (.ok, v, q') => v == [0x41, 0x22, 0x00, 0x0A, 0xFF, 0x5C] && q'.l.unread == [0x2C] && q'.l.pos == 15
+    | _ => false) = true := by decide +kernel
+
+-- roundtrip_string on the same six bytes
+example : JD.run {} 10 [0x22, 0x41, 0x5C, 0x22, 0x5C, 0x75, 0x30, 0x30, 0x30, 0x30, 0x5C, 0x6E, 0xFF, 0x5C, 0x5C, 0x22]
+    = (.ok, .str [0x41, 0x22, 0x00, 0x0A, 0xFF, 0x5C], 16) := by
+  have hw : JSer.writeString [0x41, 0x22, 0x00, 0x0A, 0xFF, 0x5C] =
+      [0x22, 0x41, 0x5C, 0x22, 0x5C, 0x75, 0x30, 0x30, 0x30, 0x30, 0x5C, 0x6E, 0xFF, 0x5C, 0x5C, 0x22] := by decide +kernel
+  have := roundtrip_string {} 10 [0x41, 0x22, 0x00, 0x0A, 0xFF, 0x5C] rfl (by decide)
+  rw [hw] at this
+  exact this
+
+-- aéb with mixed-case digits "00e9"/"00E9":  a é b
+example : ∃ q', parseQuoted {} 0x22 4 [] 0
+      { l := { unread := [0x61, 0x5C, 0x75, 0x30, 0x30, 0x65, 0x39, 0x62, 0x22] } }
+      = (.ok, [0x61, 0xC3, 0xA9, 0x62], q') ∧ q'.l.loaded = false ∧ q'.l.unread = [] := by
+  obtain ⟨q', h1, h2, h3, _⟩ := bmp_decodes_anywhere {} 0x22 (by decide) rfl [0x61] [0x62] [] (by decide) (by decide)
+    0x30 0x30 0x65 0x39 0 0 14 9 0xE9 (by decide) (by decide) (by decide) (by decide) (by decide) (by decide)
+    (by decide +kernel) { l := { unread := [0x61, 0x5C, 0x75, 0x30, 0x30, 0x65, 0x39, 0x62, 0x22] } } rfl rfl 4 0 (by decide)
+  have e : [0x61] ++ Spec.utf8 0xE9 ++ [0x62] = [0x61, 0xC3, 0xA9, 0x62] := by decide +kernel
+  rw [e] at h1
+  exact ⟨q', h1, h2, h3⟩
+
+-- x😀 in a single-quoted key/string: U+1F600
+example : ∃ q', parseQuoted {} 0x27 4 [] 0
+      { l := { unread := [0x78, 0x5C, 0x75, 0x64, 0x38, 0x33, 0x64, 0x5C, 0x75, 0x44, 0x45, 0x30, 0x30, 0x27, 0x3A] } }
+      = (.ok, [0x78, 0xF0, 0x9F, 0x98, 0x80], q') ∧ q'.l.loaded = false ∧ q'.l.unread = [0x3A] := by
+  obtain ⟨q', h1, h2, h3, _⟩ := pair_decodes_anywhere {} 0x27 (by decide) rfl [0x78] [] [0x3A] (by decide) (by decide)
+    0x64 0x38 0x33 0x64 0x44 0x45 0x30 0x30 13 8 3 13 13 14 0 0 0xD83D 0xDE00
+    (by decide) (by decide) (by decide) (by decide) (by decide) (by decide) (by decide) (by decide)
+    (by decide) (by decide) (by decide) (by decide) (by decide +kernel)
+    { l := { unread := [0x78, 0x5C, 0x75, 0x64, 0x38, 0x33, 0x64, 0x5C, 0x75, 0x44, 0x45, 0x30, 0x30, 0x27, 0x3A] } }
+    rfl rfl 4 0 (by decide)
+  have e : [0x78] ++ Spec.utf8 (Spec.pairValue 0xD83D 0xDE00) ++ [] = [0x78, 0xF0, 0x9F, 0x98, 0x80] := by decide +kernel
+  rw [e] at h1
+  exact ⟨q', h1, h2, h3⟩
+
+-- string_document:  "a\né"  is well formed and denotes  a LF é
+example : JD.run {} 10 [0x22, 0x61, 0x5C, 0x6E, 0x5C, 0x75, 0x30, 0x30, 0x45, 0x39, 0x22]
+    = (.ok, .str [0x61, 0x0A, 0xC3, 0xA9], 11) := by
+  have hb : Body 0x22 [0x61, 0x5C, 0x6E, 0x5C, 0x75, 0x30, 0x30, 0x45, 0x39]
+      (0x61 :: 0x0A :: (Spec.utf8 (0 * 4096 + 0 * 256 + 14 * 16 + 9) ++ [])) :=
+    .plain 0x61 _ _ (by decide) (by decide) (by decide)
+      (.esc 0x6E 0x0A _ _ (by decide)
+        (.bmp 0x30 0x30 0x45 0x39 0 0 14 9 [] [] (by decide) (by decide) (by decide) (by decide) (by decide) .nil))
+  have e : (0x61 :: 0x0A :: (Spec.utf8 (0 * 4096 + 0 * 256 + 14 * 16 + 9) ++ [])) = [0x61, 0x0A, 0xC3, 0xA9] := by
+    decide +kernel
+  rw [e] at hb
+  exact string_document {} 10 _ _ rfl hb (by decide)
+-- roundtrip_member:  {"a\"":"\u0000"}  (key  a"  , value NUL)
+example : JD.run {} 1 [0x7B, 0x22, 0x61, 0x5C, 0x22, 0x22, 0x3A, 0x22, 0x5C, 0x75, 0x30, 0x30, 0x30, 0x30, 0x22, 0x7D]
+    = (.ok, .obj [([0x61, 0x22], .str [0x00])], 16) := by
+  have hw : JSer.compact {} (.obj [([0x61, 0x22], .str [0x00])]) =
+      [0x7B, 0x22, 0x61, 0x5C, 0x22, 0x22, 0x3A, 0x22, 0x5C, 0x75, 0x30, 0x30, 0x30, 0x30, 0x22, 0x7D] := by decide +kernel
+  have := roundtrip_member {} 0 [0x61, 0x22] [0x00] rfl (by decide) (by decide)
+  rw [hw] at this
+  exact this
 end C17
